@@ -275,6 +275,35 @@ def run_case(ctx, g, rng):
         nontrivial = any(c.startswith("syn") and "multi" in c for c in cls)
         probe.note_key(f"graph:{direction}:{'in' if inside else 'after'}:{'conf' if configured else 'foreign'}:{'+'.join(sorted(cls))}:p{len(conf)}", nontrivial)
         S.counters["wl:graph-queries"] += 1
+    # (a') the prefix of the predicate is bound by the caller (initNs), not declared in the text: the same text asked
+    # with the configured vocabulary and with a foreign one - each answer follows the bindings of its own call
+    if allu:
+        import rdflib
+
+        for _ in range(2):
+            u = rng.choice(allu) + rng.choice(["1", "0001"])
+            if not valid_iri(u):
+                continue
+            pred = conf[0]
+            cut = max(pred.rfind("#"), pred.rfind("/")) + 1
+            text = f"SELECT ?s ?o WHERE {{ VALUES ?s {{ <{u}> }} ?s zzp:{pred[cut:]} ?o }}"
+            sp_now = spec.SpecConverter(list(spec.snapshot(conv)), ":")
+            cu = sp_now.compress(u)
+            want_conf = [(u, x) for x in (sp_now.expand_all(cu) or []) if valid_iri(x)] if cu is not None else []
+            order = [(pred[:cut], want_conf), ("http://zz.foreign/vocab#", [])]
+            if rng.random() < 0.5:
+                order.reverse()
+            for ns_, want_ in order:
+                o = call(graph.query, text, processor=processor, initNs={"zzp": rdflib.Namespace(ns_)})
+                evaluated("mapping:graph")
+                if o[0] == "raise":
+                    violation(["C18"], "mapping:graph", "query-raises", query=text, init_ns=ns_, observed=o[1], **w0)
+                    continue
+                got = [(str(r["s"]), str(r["o"])) for r in o[1]]
+                if set(got) != set(want_):
+                    violation(["C18"], "mapping:graph", "bindings-differ-from-expand_all-of-compress", leg="graph (prefix bound through initNs)", query=text,
+                              init_ns=ns_, expected=sorted(want_), observed=sorted(got), configured_predicates=conf, **w0)
+            S.counters["wl:graph-queries-with-initNs"] += 2
     # (b) web legs
     fl = fa = None
     if preds is None:
